@@ -8,7 +8,7 @@
 Require Import OV.Base.Bytes OV.Base.Py OV.Base.Insp_Struct OV.Gen.Insp_Consts OV.Model.Insp_Engine.
 Require Import OV.Model.Insp_Vmdk OV.Model.Insp_All OV.Model.C02 OV.Model.C02_Cli OV.Gen.C02_Cli.
 Require Import OV.Proofs.C02_Engine OV.Proofs.C02_Static OV.Proofs.C02_Gpt OV.Proofs.C02_Qcow OV.Proofs.C02_Spec
-               OV.Proofs.C02_Checks OV.Proofs.C02_Vmdk OV.Proofs.C02_VmdkRun OV.Proofs.C02_VmdkEx OV.Proofs.C02_Cli OV.Proofs.C02_F1.
+               OV.Proofs.C02_Checks OV.Proofs.C02_Vmdk OV.Proofs.C02_VmdkRun OV.Proofs.C02_VmdkSpec OV.Proofs.C02_VmdkEx OV.Proofs.C02_Cli OV.Proofs.C02_F1.
 Open Scope N_scope.
 
 (* ---- 1. the gate: ANY inspector object of ANY format (hence every reachable state) ---- *)
@@ -178,6 +178,12 @@ Theorem C02_clean_vmdk_accepted : forall cs : list bytes,
   accepted (Insp_All.run F_vmdk cs) = true.
 Proof. exact clean_vmdk_accepted. Qed.
 Print Assumptions C02_clean_vmdk_accepted.
+
+(* the executable form the correspondence harness evaluates on the implementation's inputs (`spec` op, vmdk) *)
+Theorem C02_vmdk_sparse_verdict_is_predicate : forall cs v,
+  vmdk_sparse_safeb (concat cs) = Some v -> (accepted (Insp_All.run F_vmdk cs) = true <-> v = true).
+Proof. exact vmdk_sparse_safeb_correct. Qed.
+Print Assumptions C02_vmdk_sparse_verdict_is_predicate.
 
 (* ---- 3. clean images are accepted (every format but QED) ---- *)
 Theorem C02_clean_image_accepted : forall cs : list bytes,
